@@ -12,7 +12,6 @@ use crate::sc::{widen, Sc};
 use crate::spy::SpyCtl;
 use crate::zoo::*;
 use serde_json::json;
-use varpro::prelude::*;
 
 /// a model with exactly `m` basis functions and `p` nonlinear parameters, if the zoo can make one
 pub fn shape_model(rng: &mut Rng, n: usize, m: usize, p: usize) -> Option<(ModelSpec, Vec<f64>)> {
